@@ -155,6 +155,10 @@ class Machine(object):
             regs[op["out"]] = Expression()
         elif k == "leafpoint":
             regs[op["out"]] = Point()
+        elif k == "nullpoint":
+            # the library's shared zero point (a module-level object that outlives every model)
+            from PEPit.point import null_point as _np0
+            regs[op["out"]] = _np0
         elif k == "cons":
             lhs = regs[op["lhs"]]
             rhs = self._num_or_reg(op["rhs"])
@@ -321,6 +325,13 @@ class Builder(object):
         n = self.nm("x")
         self.emit({"op": "init", "out": n, "name": name})
         self.points.append(n)
+        if self.rng.random() < 0.06 and not getattr(self, "_has_null", False):
+            # the origin, written with the library's own null_point: functions get evaluated at it like at any other point
+            self._has_null = True
+            z = self.nm("z")
+            self.emit({"op": "nullpoint", "out": z})
+            self.points.append(z)
+            self.feat("null_point_used")
         return n
 
     def pcomb(self, terms):
